@@ -862,12 +862,19 @@ def field_value_texts(case, i):
 
 
 def rule_D43(case) -> bool:
-    """a str/Path value (or joined list) substituted into a templated argstr contains "[," or ",]"
-    (argstr_formatting's bracket clean-up removes the comma)"""
+    """the text of a templated argstr with a str/Path value (or joined list) substituted for its own `{name}` contains
+    "[ ", " ]", "[," or ",]" touching the value (argstr_formatting's bracket clean-up rewrites it)"""
+    pats = ("[ ", " ]", "[,", ",]")
     for i in sorted({i for i, _ in str_elements(case)}):
         f = case["fields"][i]
-        if "{" in f["argstr"] and any("[," in t or ",]" in t for t in field_value_texts(case, i)):
-            return True
+        if "{" not in f["argstr"]:
+            continue
+        text = f["argstr"].replace("...", "")
+        if any(p in text for p in pats):
+            continue  # the argstr itself asks for the clean-up: not about the value
+        for t in field_value_texts(case, i):
+            if any(p in text.replace("{" + f["name"] + "}", t) for p in pats):
+                return True
     return False
 
 
